@@ -8,6 +8,7 @@ abstract interpreter see one spelling of constructs that mean the same:
   v += E                                ->  v = v + E                (plain local names only; numbers, strings, datetimes)
   if C: <... return|raise|continue|break> else: R   ->   if C: <...>  ;  R      (an else after a terminating body is unnested)
   dict(a=x, b=y)                        ->  {"a": x, "b": y}
+  logger.debug(...) / logging.info(...) / print(...) / warnings.warn(...) as a statement   ->   removed (diagnostic output only)
   f(x, p2=y)                            ->  f(x, y)                  (second pass, needs all signatures: keywords of calls to functions
                                                                       defined in the tree with one signature become positional)
 
@@ -97,7 +98,24 @@ class Normalizer(ast.NodeTransformer):
             return ast.copy_location(ast.Dict(keys=[ast.copy_location(ast.Constant(value=k.arg), node) for k in node.keywords], values=[k.value for k in node.keywords]), node)
         return node
 
+    @staticmethod
+    def _is_diagnostic(st) -> bool:
+        if not (isinstance(st, ast.Expr) and isinstance(st.value, ast.Call)):
+            return False
+        f = st.value.func
+        if isinstance(f, ast.Name) and f.id == "print":
+            return True
+        if isinstance(f, ast.Attribute) and isinstance(f.value, ast.Name):
+            recv, m = f.value.id, f.attr
+            if recv.lower() in ("logger", "log", "logging", "_logger", "_log") and m in ("debug", "info", "warning", "warn", "error", "exception", "critical", "log"):
+                return True
+            if recv == "warnings" and m == "warn":
+                return True
+        return False
+
     def _block(self, stmts):
+        kept = [st for st in stmts if not self._is_diagnostic(st)]
+        stmts = kept if kept else [ast.copy_location(ast.Pass(), stmts[0])] if stmts else stmts
         flat = []
         for st in stmts:
             flat.append(st)
